@@ -221,6 +221,7 @@ type traceLine struct {
 	Mnem    string
 	Operand string // as printed, blanks removed, lower case
 	A, X, Y string
+	S       string // stack pointer, if the layout shows it
 	Flags   string
 }
 
@@ -229,6 +230,7 @@ var (
 	reRegs  = regexp.MustCompile(`A[=:]([^ \t|│]{2,6})[ \t]+X[=:]([^ \t|│]{2,6})[ \t]+Y[=:]([^ \t|│]{2,6})`)
 	reFlags = regexp.MustCompile(`(?:^|[ |│\t])([nN-][vV-][mM-][xX-][dD-][iI-][zZ-][cC-])(?:[ |│\t\n]|$)`)
 	reHex4  = regexp.MustCompile(`[0-9a-f]{4}`)
+	reSP    = regexp.MustCompile(`(?:^|[ \t|│])S[Pp]?[=:]([0-9a-fA-F]{4})(?:[ \t|│]|$)`)
 )
 
 func splitSep(s string) (string, string, bool) {
@@ -289,6 +291,9 @@ func parseTraceLineOpt(line string, needRegs bool) (*traceLine, error) {
 		t.A, t.X, t.Y = strings.ToLower(m[1]), strings.ToLower(m[2]), strings.ToLower(m[3])
 	} else if needRegs {
 		return nil, fmt.Errorf("no A= X= Y= fields in %q", line)
+	}
+	if m := reSP.FindStringSubmatch(line); m != nil {
+		t.S = strings.ToLower(m[1])
 	}
 	if m := reFlags.FindStringSubmatch(line); m != nil {
 		t.Flags = m[1]
@@ -387,6 +392,9 @@ func checkTraceLine(t *traceLine, r Regs, ins []byte) (oracle, msg string) {
 	}
 	if o, m := chk("Y", t.Y, r.X == 1, r.RY, r.RYl, byte(r.RY>>8)); o != "" {
 		return o, m
+	}
+	if t.S != "" && t.S != fmt.Sprintf("%04x", r.SP) {
+		return "trace_register", fmt.Sprintf("the stack pointer the instruction will see is %04x; the line shows S=%s", r.SP, t.S)
 	}
 	fl := []byte{r.N, r.V, r.M, r.X, r.D, r.I, r.Z, r.C}
 	for i, f := range fl {
